@@ -5,6 +5,8 @@ lists of any length, affine images of the unit cube.
 import CBV.Model.C10
 import Mathlib.Tactic.Ring
 import Mathlib.Tactic.Linarith
+import Mathlib.Tactic.LinearCombination
+import Mathlib.Tactic.FieldSimp
 import Mathlib.Algebra.Order.Field.Rat
 
 namespace CBV.C10
@@ -160,5 +162,54 @@ def outwardRaw (o : GOp) (f : List V3) : Rat :=
 theorem hex_pts (A : Aff) : A.hex.pts =
     [A.app 0 0 0, A.app 1 0 0, A.app 1 1 0, A.app 0 1 0, A.app 0 0 1, A.app 1 0 1, A.app 1 1 1, A.app 0 1 1] := by
   simp [Aff.hex, Aff.corner, coord, b2r, List.range, List.range.loop]
+
+/-! ### rotation about an axis (Rodrigues' form), for a unit axis `u` -/
+
+/-- `rotateP` with the normalised axis named: `rotateP c s axis len o p = rotU c s (axis / len) o p` by definition -/
+def rotU (c s : Rat) (u o p : V3) : V3 :=
+  o + (V3.smul c (p - o) + V3.smul s (V3.cross u (p - o)) + V3.smul ((1 - c) * V3.dot u (p - o)) u)
+
+theorem rotateP_eq (c s : Rat) (axis : V3) (len : Rat) (o p : V3) :
+    rotateP c s axis len o p = rotU c s (V3.smul (1 / len) axis) o p := rfl
+
+/-- the normalised axis is a unit vector when `len` is the length of the axis -/
+theorem unit_axis (axis : V3) (len : Rat) (h0 : len ≠ 0) (hl : len * len = V3.norm2 axis) :
+    V3.norm2 (V3.smul (1 / len) axis) = 1 := by
+  simp only [V3.norm2, V3.dot, V3.smul_x, V3.smul_y, V3.smul_z] at hl ⊢
+  field_simp
+  linear_combination -hl
+
+/-- the chord from a point to its image is perpendicular to the axis -/
+theorem rotU_chord_perp (c s : Rat) (u o p : V3) (hu : V3.norm2 u = 1) :
+    V3.dot (rotU c s u o p - p) u = 0 := by
+  simp only [V3.norm2, V3.dot] at hu
+  simp only [rotU, V3.dot, V3.add_x, V3.add_y, V3.add_z, V3.sub_x, V3.sub_y, V3.sub_z, V3.smul_x, V3.smul_y, V3.smul_z,
+    V3.cross_x, V3.cross_y, V3.cross_z]
+  linear_combination ((1 - c) * (u.x * (p.x - o.x) + u.y * (p.y - o.y) + u.z * (p.z - o.z))) * hu
+
+/-- a point and its image are at the same distance from the foot of the point on the axis (the centre of the arc) -/
+theorem rotU_equidistant (c s : Rat) (u o p : V3) (hu : V3.norm2 u = 1) (hcs : c * c + s * s = 1) :
+    V3.norm2 (rotU c s u o p - (o + V3.smul (V3.dot u (p - o)) u)) =
+      V3.norm2 (p - (o + V3.smul (V3.dot u (p - o)) u)) := by
+  simp only [V3.norm2, V3.dot] at hu
+  simp only [rotU, V3.norm2, V3.dot, V3.add_x, V3.add_y, V3.add_z, V3.sub_x, V3.sub_y, V3.sub_z, V3.smul_x, V3.smul_y,
+    V3.smul_z, V3.cross_x, V3.cross_y, V3.cross_z]
+  linear_combination
+    (((p.x - o.x) * (p.x - o.x) + (p.y - o.y) * (p.y - o.y) + (p.z - o.z) * (p.z - o.z)) -
+      (u.x * (p.x - o.x) + u.y * (p.y - o.y) + u.z * (p.z - o.z)) ^ 2) * hcs +
+    ((c * c - 1) * (u.x * (p.x - o.x) + u.y * (p.y - o.y) + u.z * (p.z - o.z)) ^ 2 +
+      s * s * ((p.x - o.x) * (p.x - o.x) + (p.y - o.y) * (p.y - o.y) + (p.z - o.z) * (p.z - o.z))) * hu
+
+/-- the rotation keeps all distances -/
+theorem rotU_isometry (c s : Rat) (u o p q : V3) (hu : V3.norm2 u = 1) (hcs : c * c + s * s = 1) :
+    V3.norm2 (rotU c s u o p - rotU c s u o q) = V3.norm2 (p - q) := by
+  simp only [V3.norm2, V3.dot] at hu
+  simp only [rotU, V3.norm2, V3.dot, V3.add_x, V3.add_y, V3.add_z, V3.sub_x, V3.sub_y, V3.sub_z, V3.smul_x, V3.smul_y,
+    V3.smul_z, V3.cross_x, V3.cross_y, V3.cross_z]
+  linear_combination
+    (((p.x - q.x) * (p.x - q.x) + (p.y - q.y) * (p.y - q.y) + (p.z - q.z) * (p.z - q.z)) -
+      (u.x * (p.x - q.x) + u.y * (p.y - q.y) + u.z * (p.z - q.z)) ^ 2) * hcs +
+    (s * s * ((p.x - q.x) * (p.x - q.x) + (p.y - q.y) * (p.y - q.y) + (p.z - q.z) * (p.z - q.z)) +
+      (1 - c) ^ 2 * (u.x * (p.x - q.x) + u.y * (p.y - q.y) + u.z * (p.z - q.z)) ^ 2) * hu
 
 end CBV.C10
